@@ -47,6 +47,26 @@ pub fn real_nanos() -> u64 {
     (ts.tv_sec as u64) * 1_000_000_000 + ts.tv_nsec as u64
 }
 
+/// CPU time consumed by the thread that owns `clockid` (pthread_getcpuclockid); immune to the
+/// whole process or VM being frozen, unlike wall time
+pub fn cpu_nanos(clockid: libc::clockid_t) -> u64 {
+    let mut ts = libc::timespec { tv_sec: 0, tv_nsec: 0 };
+    // SAFETY: plain syscall with a valid out-pointer (the interposed clock_gettime is bypassed).
+    unsafe {
+        libc::syscall(libc::SYS_clock_gettime, clockid as libc::c_long, &mut ts as *mut libc::timespec);
+    }
+    (ts.tv_sec as u64) * 1_000_000_000 + ts.tv_nsec as u64
+}
+
+pub fn this_thread_cpu_clock() -> libc::clockid_t {
+    let mut cid: libc::clockid_t = 0;
+    // SAFETY: pthread_self is always valid for the calling thread.
+    unsafe {
+        libc::pthread_getcpuclockid(libc::pthread_self(), &mut cid);
+    }
+    cid
+}
+
 // ------------------------------------------------------------------------------------------
 
 #[derive(Clone, Copy, Debug, PartialEq, Eq)]
@@ -387,7 +407,9 @@ fn shard_seed(env: &Env, sub: &str, shard: usize) -> [u8; 32] {
 // hang monitor
 
 struct HangSlot {
-    started: AtomicU64, // real nanos; 0 = idle
+    /// CPU clock of the shard thread currently using this slot (0 = none yet)
+    clockid: std::sync::atomic::AtomicI32,
+    started: AtomicU64, // thread CPU nanos at case start (+1); 0 = idle
     case: Mutex<Option<Box<dyn Fn() -> Value + Send>>>,
 }
 
@@ -402,6 +424,7 @@ impl HangMonitor {
         let slots: Vec<Arc<HangSlot>> = (0..n)
             .map(|_| {
                 Arc::new(HangSlot {
+                    clockid: std::sync::atomic::AtomicI32::new(0),
                     started: AtomicU64::new(0),
                     case: Mutex::new(None),
                 })
@@ -413,10 +436,16 @@ impl HangMonitor {
         let handle = std::thread::spawn(move || {
             while !st2.load(Ordering::Relaxed) {
                 std::thread::sleep(Duration::from_millis(250));
-                let now = real_nanos();
                 for s in &s2 {
                     let st = s.started.load(Ordering::Acquire);
-                    if st != 0 && now.saturating_sub(st) > budget.as_nanos() as u64 {
+                    let cid = s.clockid.load(Ordering::Acquire);
+                    if st == 0 || cid == 0 {
+                        continue;
+                    }
+                    // budget is CPU time of the shard thread inside the case: a frozen process or a
+                    // descheduled thread does not count, a spinning case does
+                    let now = cpu_nanos(cid) + 1;
+                    if now.saturating_sub(st) > budget.as_nanos() as u64 {
                         let case = s
                             .case
                             .lock()
@@ -426,7 +455,7 @@ impl HangMonitor {
                         let fail = Fail::new(
                             "hang",
                             format!(
-                                "case still running after {:.1}s (budget {:.1}s): non-termination or super-linear work",
+                                "case still running after {:.1}s of CPU time (budget {:.1}s): non-termination or super-linear work",
                                 now.saturating_sub(st) as f64 / 1e9,
                                 budget.as_secs_f64()
                             ),
@@ -725,7 +754,8 @@ where
                 let c2 = case.clone();
                 *slot.case.lock().unwrap() =
                     Some(Box::new(move || serde_json::to_value(&*c2).unwrap_or(Value::Null)));
-                slot.started.store(real_nanos(), Ordering::Release);
+                slot.clockid.store(this_thread_cpu_clock(), Ordering::Release);
+                slot.started.store(cpu_nanos(libc::CLOCK_THREAD_CPUTIME_ID) + 1, Ordering::Release);
             }
             let st = if failed.get() { None } else { Some(&stats) };
             let r = eval_case(self.name, env, &*case, &self.body, st, 2);
@@ -857,6 +887,216 @@ where
     fn replay(&self, case: &Value, env: &Env) -> Result<CaseResult, String> {
         let case: T = serde_json::from_value(case.clone()).map_err(|e| format!("cannot decode case: {e}"))?;
         Ok(eval_case(self.name, env, &case, &self.body, None, 0))
+    }
+}
+
+// ------------------------------------------------------------------------------------------
+// coverage-guided fuzzing sub-property (libFuzzer through cargo-fuzz; thorough tier only).
+// The semantic oracle lives in `oracle` and is the same function the fuzz target calls, so a
+// crash artifact replays in-process through `./check <ID> --replay`.
+
+pub struct FuzzSub {
+    pub name: &'static str,
+    /// cargo-fuzz target name in /verif/fuzz
+    pub target: &'static str,
+    pub runs_thorough: u64,
+    pub max_len: u32,
+    pub oracle: fn(&[u8]) -> CaseResult,
+    /// structured seed inputs produced by the generators (written into the campaign corpus)
+    pub seeds: fn() -> Vec<Vec<u8>>,
+}
+
+#[derive(Serialize, Deserialize)]
+struct FuzzCase {
+    #[serde(with = "hexser")]
+    input: Vec<u8>,
+}
+
+pub fn known_signatures(prop: &str) -> Vec<String> {
+    load_known(prop).into_iter().filter(|k| k.status == "known").map(|k| k.signature).collect()
+}
+
+/// what a fuzz target does with one input: run the oracle under the panic guard, tolerate known
+/// findings (so the campaign continues behind them), abort on anything else
+pub fn fuzz_target_entry(prop: &str, oracle: fn(&[u8]) -> CaseResult, data: &[u8]) {
+    use std::sync::OnceLock;
+    static KNOWN: OnceLock<Vec<String>> = OnceLock::new();
+    static HOOK: OnceLock<()> = OnceLock::new();
+    HOOK.get_or_init(install_panic_hook);
+    let known = KNOWN.get_or_init(|| known_signatures(prop));
+    if let Err(f) = guard(|| oracle(data)) {
+        if known.iter().any(|k| *k == f.sig) {
+            return;
+        }
+        eprintln!("FUZZ-VIOLATION property={prop} sig={} {}", f.sig, f.msg);
+        std::process::abort();
+    }
+}
+
+impl FuzzSub {
+    fn corpus_dir(&self) -> PathBuf {
+        PathBuf::from(vpath(&format!("corpus/{}", self.target)))
+    }
+
+    fn eval(&self, env: &Env, data: &[u8], stats: &mut Stats) -> Option<Fail> {
+        stats.evaluations += 1;
+        match guard(|| (self.oracle)(data)) {
+            Ok(()) => {
+                let h = fixed_hash(&[self.name.as_bytes(), data]);
+                if data.len() > 12 && stats.nt.insert(h) && stats.samples.len() < 2 {
+                    stats.samples.push(json!({"sub": self.name, "case": format!("{} octets: {}", data.len(), hexser::to_hex(&data[..data.len().min(64)]))}));
+                }
+                None
+            }
+            Err(f) if env.is_known(&f.sig) => {
+                *stats.excluded_known.entry(f.sig.clone()).or_default() += 1;
+                None
+            }
+            Err(f) => Some(f),
+        }
+    }
+}
+
+impl Sub for FuzzSub {
+    fn name(&self) -> &str {
+        self.name
+    }
+
+    fn run(&self, env: &Env) -> SubOutcome {
+        let t0 = real_nanos();
+        let mut stats = Stats::default();
+        let mut violations = Vec::new();
+        // replay tier: committed corpus + generator seeds through the in-process oracle
+        let mut inputs: Vec<Vec<u8>> = Vec::new();
+        if let Ok(rd) = std::fs::read_dir(self.corpus_dir()) {
+            let mut files: Vec<PathBuf> = rd.filter_map(|e| e.ok().map(|e| e.path())).filter(|p| p.is_file()).collect();
+            files.sort();
+            for f in files {
+                if let Ok(b) = std::fs::read(&f) {
+                    inputs.push(b);
+                }
+            }
+        }
+        let seeds = (self.seeds)();
+        inputs.extend(seeds.iter().cloned());
+        for data in &inputs {
+            if let Some(f) = self.eval(env, data, &mut stats) {
+                if !violations.iter().any(|v: &ViolationRec| v.fail.sig == f.sig) {
+                    violations.push(ViolationRec {
+                        sub: self.name.to_string(),
+                        fail: f,
+                        case: serde_json::to_value(FuzzCase { input: data.clone() }).unwrap(),
+                    });
+                }
+            }
+        }
+        stats.extra.insert(format!("fuzz_{}_corpus_replayed", self.target), json!(inputs.len()));
+        if env.tier == Tier::Thorough && violations.is_empty() {
+            let runs = ((self.runs_thorough as f64) * env.scale).ceil() as u64;
+            let fuzz_dir = vpath("fuzz");
+            let scratch = PathBuf::from(vpath(&format!(".scratch/fuzz-{}-{}", self.target, std::process::id())));
+            let corpus = scratch.join("corpus");
+            let artifacts = scratch.join("artifacts");
+            let _ = std::fs::create_dir_all(&corpus);
+            let _ = std::fs::create_dir_all(&artifacts);
+            for (i, d) in inputs.iter().enumerate() {
+                let _ = std::fs::write(corpus.join(format!("seed-{i:05}")), d);
+            }
+            let jobs = env.threads.clamp(1, 16);
+            let per_job = runs.div_ceil(jobs as u64);
+            let out = std::process::Command::new("cargo")
+                .current_dir(&fuzz_dir)
+                .env("CARGO_NET_OFFLINE", "true")
+                .env("VERIF_DIR", verif_dir())
+                .args(["+nightly", "fuzz", "run", "--fuzz-dir"])
+                .arg(&fuzz_dir)
+                .arg(self.target)
+                .arg(&corpus)
+                .arg("--")
+                .arg(format!("-runs={per_job}"))
+                .arg(format!("-seed={}", (env.seed % 0xffff_fffe) + 1))
+                .arg(format!("-max_len={}", self.max_len))
+                .arg("-len_control=0")
+                .arg("-rss_limit_mb=4096")
+                .arg("-malloc_limit_mb=2048")
+                .arg("-timeout=60")
+                .arg(format!("-fork={jobs}"))
+                .arg("-ignore_crashes=0")
+                .arg(format!("-artifact_prefix={}/", artifacts.display()))
+                .output();
+            match out {
+                Ok(o) => {
+                    let text = format!("{}\n{}", String::from_utf8_lossy(&o.stdout), String::from_utf8_lossy(&o.stderr));
+                    let mut execs = 0u64;
+                    let mut cov = 0u64;
+                    let mut ft = 0u64;
+                    for line in text.lines() {
+                        // fork mode: "#12345: cov: 2345 ft: 6789 corp: 123 exec/s 456 ..."
+                        if let Some(rest) = line.strip_prefix('#') {
+                            if let Some((n, tail)) = rest.split_once(':') {
+                                if let Ok(n) = n.trim().parse::<u64>() {
+                                    execs = execs.max(n);
+                                }
+                                let toks: Vec<&str> = tail.split_whitespace().collect();
+                                for w2 in toks.windows(2) {
+                                    if w2[0] == "cov:" {
+                                        cov = cov.max(w2[1].parse().unwrap_or(0));
+                                    }
+                                    if w2[0] == "ft:" {
+                                        ft = ft.max(w2[1].parse().unwrap_or(0));
+                                    }
+                                }
+                            }
+                        }
+                    }
+                    stats.evaluations += execs;
+                    stats.extra.insert(format!("fuzz_{}", self.target), json!({"execs": execs, "cov": cov, "features": ft, "requested_runs": runs, "jobs": jobs, "exit": o.status.code()}));
+                    // any artifact is a finding candidate: re-judge it in-process (exact signature)
+                    let mut arts: Vec<PathBuf> = std::fs::read_dir(&artifacts).map(|d| d.filter_map(|e| e.ok().map(|e| e.path())).collect()).unwrap_or_default();
+                    arts.sort();
+                    for a in arts {
+                        let Ok(data) = std::fs::read(&a) else { continue };
+                        let fname = a.file_name().map(|f| f.to_string_lossy().to_string()).unwrap_or_default();
+                        let fail = match self.eval(env, &data, &mut stats) {
+                            Some(f) => f,
+                            None if fname.starts_with("crash-") || fname.starts_with("timeout-") || fname.starts_with("oom-") => {
+                                if fname.starts_with("oom-") {
+                                    // memory is not part of any statement checked here
+                                    continue;
+                                }
+                                Fail::new(
+                                    if fname.starts_with("timeout-") { "hang" } else { "fuzz-crash-not-reproduced-in-process" },
+                                    format!("libFuzzer wrote {fname} but the in-process oracle passes (sanitizer finding or timeout)"),
+                                )
+                            }
+                            None => continue,
+                        };
+                        if !violations.iter().any(|v: &ViolationRec| v.fail.sig == fail.sig) {
+                            violations.push(ViolationRec { sub: self.name.to_string(), fail, case: serde_json::to_value(FuzzCase { input: data }).unwrap() });
+                        }
+                    }
+                    if execs == 0 && violations.is_empty() {
+                        eprintln!("[{}] fuzz campaign {} produced no executions (build failure?):\n{}", env.prop, self.target, text.lines().rev().take(15).collect::<Vec<_>>().join("\n"));
+                        stats.extra.insert(format!("fuzz_{}_error", self.target), json!("campaign did not run"));
+                    }
+                }
+                Err(e) => {
+                    eprintln!("[{}] cannot start cargo fuzz: {e}", env.prop);
+                    stats.extra.insert(format!("fuzz_{}_error", self.target), json!(e.to_string()));
+                }
+            }
+            let _ = std::fs::remove_dir_all(&scratch);
+        }
+        SubOutcome { name: self.name.to_string(), stats, violations, wall_s: (real_nanos() - t0) as f64 / 1e9 }
+    }
+
+    fn replay(&self, case: &Value, env: &Env) -> Result<CaseResult, String> {
+        let c: FuzzCase = serde_json::from_value(case.clone()).map_err(|e| format!("cannot decode fuzz case: {e}"))?;
+        let r = guard(|| (self.oracle)(&c.input));
+        Ok(match r {
+            Err(f) if env.is_known(&f.sig) => Ok(()),
+            r => r,
+        })
     }
 }
 
